@@ -250,6 +250,7 @@ fn run_check(id: &str, tier: &str) -> i32 {
     let mut machinery: Vec<String> = Vec::new();
     let mut by_sig: BTreeMap<String, (String, explore::ViolationRec)> = BTreeMap::new();
     let mut total_viol = 0u64;
+    let mut resource_deaths_ignored: Vec<String> = Vec::new();
     for (st, r) in stages.iter().zip(results.iter()) {
         machinery.extend(r.machinery_errors.iter().cloned());
         total_viol += r.violations_total;
@@ -257,6 +258,8 @@ fn run_check(id: &str, tier: &str) -> i32 {
             let oom = v.kind == "crash" && v.detail.contains("exit status: 97");
             if check.ignore_resource_deaths && (oom || v.kind == "timeout") {
                 // memory exhaustion and hangs are C09's business (the same sweep runs there)
+                total_viol = total_viol.saturating_sub(1);
+                resource_deaths_ignored.push(format!("{}: {} [{}]", st.space, v.desc, v.kind));
                 continue;
             }
             let sig = if v.kind == "oracle" {
@@ -319,7 +322,13 @@ fn run_check(id: &str, tier: &str) -> i32 {
     }
 
     // evidence
-    let ev = build_evidence(check, tier, &stages, &results, extra.as_ref(), total_viol, &known_seen, reported, t0.elapsed().as_secs_f64());
+    let mut ev = build_evidence(check, tier, &stages, &results, extra.as_ref(), total_viol, &known_seen, reported, t0.elapsed().as_secs_f64());
+    if !resource_deaths_ignored.is_empty() {
+        for d in resource_deaths_ignored.iter().take(5) {
+            println!("NOTE memory/time death left to C09 (same sweep with budgets): {}", d.chars().take(300).collect::<String>());
+        }
+        ev.set("resource_deaths_left_to_C09", J::Arr(resource_deaths_ignored.iter().take(50).map(|d| J::s(d.clone())).collect()));
+    }
     let edir = verif_dir().join("evidence");
     let _ = std::fs::create_dir_all(&edir);
     if let Err(e) = std::fs::write(edir.join(format!("{}.json", check.id)), ev.to_string_pretty()) {
